@@ -103,6 +103,15 @@ def drive(ctx):
             ctx.emit("add_cal_date", {"c": c, "entry": en}, [{"k": "date", "w": [y0, 2, 29], "cls": "Date"}])
             ctx.emit("add_cal", {"c": c, "entry": en}, [mk_dt(UTCZ if n % 2 else NAIVE, [y0, 2, 29, 1, 2, 3, 4], 0)])
             ctx.emit("add_cal_date", {"c": C(y=yrs, d=1), "entry": en}, [{"k": "date", "w": [y0, 2, 29], "cls": "Date"}])
+    # (a'') the last year of the range: shifts from and into year 9999 that stay representable
+    for (w0, c) in ctx.mine([([9999, 3, 15], C(mo=1)), ([9999, 1, 31], C(mo=1)), ([9998, 12, 31], C(d=1)), ([9998, 6, 30], C(y=1)),
+                             ([9999, 12, 1], C(d=20)), ([9999, 5, 5], C(mo=-3, d=2)), ([9999, 2, 28], C(w=2)), ([9990, 1, 1], C(y=9, mo=11)),
+                             ([9999, 12, 25], C(d=-400)), ([9999, 7, 1], C(y=-5000))]):
+        for en in ("add", "subtract", "plus_dur", "minus_dur"):
+            cc = c if en in ("add", "plus_dur") else {k2: -v for k2, v in c.items()}
+            ctx.emit("add_cal_date", {"c": cc, "entry": en}, [{"k": "date", "w": w0, "cls": "Date"}])
+            ctx.emit("add_cal", {"c": cc, "entry": en}, [mk_dt(UTCZ, w0 + [12, 0, 0, 0], 0)])
+            ctx.emit("add_cal", {"c": cc, "entry": en}, [mk_dt(NAIVE, w0 + [0, 0, 0, 1], 0)])
     # (b) targets inside / at the edges of gaps and overlaps
     full = ctx.backend == "rs" or not q
     for zn in ctx.mine(real_zone_names(ctx)) + ctx.mine(synth_zone_names(ctx)):
